@@ -320,7 +320,7 @@ def _map_qiskit_instr_to_pq(
         pq_instruction = pq.ParticleNumberMeasurement().on_modes(modes[0], modes[1])
         instructions.append(pq_instruction)
     elif instruction_name == "if_else":
-        true_branch_instructions = qiskit_instruction.operation.params[0]
+        true_block, false_block = qiskit_instruction.operation.params[:2]
 
         cond = qiskit_instruction.operation.condition
 
@@ -330,11 +330,17 @@ def _map_qiskit_instr_to_pq(
                 "instruction is not written by any preceding measurement."
             )
 
-        condition = _get_condition_function(clbit_positions[cond[0]], cond[1])
-        for inner_instr_qiskit in true_branch_instructions:
-            instr_list = _map_qiskit_instr_to_pq(inner_instr_qiskit, modes, aux_modes)
-            for instr in instr_list:
-                instructions.append(instr.when(condition))
+        for block, value in ((true_block, cond[1]), (false_block, 1 - cond[1])):
+            if block is None:
+                continue
+
+            condition = _get_condition_function(clbit_positions[cond[0]], value)
+            for inner_instr_qiskit in block:
+                instr_list = _map_qiskit_instr_to_pq(
+                    inner_instr_qiskit, modes, aux_modes
+                )
+                for instr in instr_list:
+                    instructions.append(instr.when(condition))
     else:
         raise ValueError(
             f"Unsupported instruction '{instruction_name}' in the quantum circuit."
